@@ -867,13 +867,15 @@ class StateEngine(object):
             return
 
         """
-        self.executions.get(execution_arn) == None should only really happen if
+        not self.executions.get(execution_arn) should only really happen if
         the StateEngine has failed and been restarted and we are handling a
         redelivered message. When we add code IDC to persist execution metadata
         state we should hopefully be able to avoid the following condition upon
-        StateEngine restart.
+        StateEngine restart. Note that we test for "not" rather than "== None"
+        because the Redis backed store never returns None: for an unknown (e.g.
+        expired) key its get() returns an empty RedisDict.
         """
-        if self.executions.get(execution_arn) == None:
+        if not self.executions.get(execution_arn):
             self.logger.warning(
                 "StateEngine: update_execution_history: Execution {} does not "
                 "exist, probably due to StateEngine restart. Some history "
@@ -1091,7 +1093,25 @@ class StateEngine(object):
             """
             if not current_id in all_branch_results:
                 #print("Initialise the branch_results object")
-                length = branch_info["Length"]
+                length = branch_info.get("Length")
+                if length == None:
+                    """
+                    Only the record that a Map state leaves on the stack to
+                    re-enter itself for its next block of MaxConcurrency has
+                    no Length (see asl_state_collect_results). The results of
+                    that Map state were initialised when its first block was
+                    launched, so if they no longer exist it is because they
+                    were tidied up: the execution, or the Map or Parallel
+                    state enclosing this Map state, has ended whilst this
+                    event was outstanding. Treat it like the event of any
+                    other terminated branch, acknowledge and drop it, and
+                    don't leave behind metadata created just for this event.
+                    """
+                    self.event_dispatcher.acknowledge(id)
+                    if len(all_branch_results) == 0:
+                        del self.branch_metadata[execution_arn]
+                    return True
+
                 all_branch_results[current_id] = {
                     "results": [None]*length,
                     "ids": [None]*length,  # Unacknowledged messages
@@ -2366,6 +2386,7 @@ class StateEngine(object):
             field on the first Choice Rule where there is an exact match between
             the input value and a member of the comparison-operator array.
             """
+            next_state = None  # "Choices" may (illegally) be empty or missing
             for choice in choices:
                 next_state = choose(choice)
                 if next_state:
@@ -3101,6 +3122,16 @@ class StateEngine(object):
 
             retry_count = branch_info.get("RetryCount")  # None if not present
             retry_timeout = branch_info.get("RetryTimeout")  # None if not present
+
+            """
+            Any retry info still in the context is that of the last state of
+            the Branch or Iterator (e.g. a Task state that has used up its own
+            retries). It must not be mistaken for that of the parent Map or
+            Parallel state, whose own retry info (saved in branch_info when
+            its branches were launched) is restored below where needed.
+            """
+            context_state.pop("RetryCount", None)
+            context_state.pop("RetryTimeout", None)
 
             """
             Retrieve the full parent Map/Parallel state dict from the ASL given
